@@ -98,6 +98,10 @@ def instantiate_type(
         scopes = ctype.typename.namespaces + [ctype.typename.name]
         scopes[scopes.index(scoped_template)] = parser.Typename(
             [instantiation.name], instantiation.instantiations).to_cpp()
+        if isinstance(ctype, parser.TemplatedType):
+            # Keep the template arguments with their qualifiers, e.g. T::Map<K*>.
+            ctype.typename.namespaces = instantiation.namespaces + scopes[:-1]
+            return ctype
         instantiation.name = "::".join(scopes)
         instantiation.instantiations = ctype.typename.instantiations
         return parser.Type(
